@@ -59,9 +59,11 @@ VALUES = ["", "a", "b", "c", "x y", "handle:", "handle:AAAAAAAAAAAAAAAAAAAA", "h
           "a\\b", "tab\there", "nl\nline", "cr\rx", " lead", "trail ", "  ", "-r", "--recursive", "--", "😀", "é",
           "null", "none", "undefined:0", "=", "x=y", ":l", "!inc", "a b c", "'", "`", "(", ")", "not", " ", " ",
           "handle:N0000000000000000000", "scope::array_concat::arguments", "\x00", "a\x00b", "\ufeff", "\U0010ffff",
-          "\u202e", "e\u0301", "\u1e9e", "İ", "ß", "true ", "FALSE", "0.0", "١٢", "handle:RAW00000000000000009"]
+          "\u202e", "e\u0301", "\u1e9e", "İ", "ß", "true ", "FALSE", "0.0", "١٢", "handle:RAW00000000000000009",
+          # integer-looking text that is NOT the canonical rendering of its number (seed C12-w5-m1: stored as a number)
+          "007", "0042", "+5", "-0", "+0", "00", "1e3", "0x10", "9223372036854775808", "-9223372036854775808", "1_000", "1.0", "٣"]
 SAFE_VALUES = ["a", "b", "c", "x y", "handle:", "handle:AAAAAAAAAAAAAAAAAAAA", "true", "false", "0", "12", "é", "日本語",
-               "a,b", "", "nope", "-r", "=", ":l", "!inc", "'", "(", "not", "😀"]
+               "a,b", "", "nope", "-r", "=", ":l", "!inc", "'", "(", "not", "😀", "007", "+5", "-0"]
 INDEXES = ["0", "1", "2", "3", "4", "5", "6", "7", "10", "149", "150", "255", "256", "292", "293", "299", "300", "-1", "+1", "+0", "01", "007", "abc", "", "1.0", " 1", "1 ", "-0",
            "18446744073709551615", "18446744073709551616", "99999999999999999999999999", "٣", "+", "-", "0x1", "1e1",
            "4294967296", "9223372036854775807", "9223372036854775808"]
